@@ -102,6 +102,22 @@ def rand_game(rng, hi=3, kind=None):
     return prob, pred, (a, b, x, y, (kind or "frac") if frac else "01", pk)
 
 
+def tilted_chsh(rng):
+    """CHSH plus a question pair on which only Alice's answer to her first question is rewarded (weight w): the marginal term makes the NPA
+    levels differ (level 1 is not tight).  Bob may have a third, never winning answer."""
+    w = float(rng.uniform(0.12, 0.35))
+    b_out = int(rng.integers(2, 4))
+    pred = np.zeros((2, b_out, 2, 3))
+    prob = np.zeros((2, 3))
+    for x, y in itertools.product(range(2), repeat=2):
+        prob[x, y] = (1 - w) / 4
+        for a, b in itertools.product(range(2), repeat=2):
+            pred[a, b, x, y] = float((a ^ b) == (x & y))
+    prob[0, 2] = w
+    pred[0, :, 0, 2] = 1.0
+    return prob, pred, f"tilted-chsh[b_out={b_out}]"
+
+
 def gap_game(rng, r):
     """Games that usually have classical < quantum/non-signalling."""
     k = r % 7
@@ -504,6 +520,22 @@ def _run_hist(ctx, spec, rng):
             now = (snap.digest(game.prob_mat), snap.digest(game.pred_mat))
             ctx.check("O5:game-unchanged", now == before, sig=("after", m), mech=f"value-method-mutates-game[{m}]", detail={"game": name, "order": order})
         ctx.sample("O5:order-independent", {"game": name, "history": log, "fresh": fresh})
+    # the NPA levels among themselves: every order of the levels on ONE object gives the values of fresh objects (tilted CHSH games with unequal
+    # alphabets, where level 1 is not tight)
+    lrng = np.random.default_rng([ctx.seed, 778, spec[1]])
+    prob2, pred2, _name2 = tilted_chsh(lrng)
+    a2, b2, x2, y2 = pred2.shape
+    levels = [1, "1+ab", 2]
+    fresh_l = {str(k): _solve(ctx, NonlocalGame(prob2.copy(), pred2.copy()).commuting_measurement_value_upper_bound, k) for k in levels}
+    order_l = [levels[i_] for i_ in list(itertools.permutations(range(3)))[spec[1] % 6]]
+    game2 = NonlocalGame(prob2.copy(), pred2.copy())
+    for pos, k in enumerate(order_l):
+        v = _solve(ctx, game2.commuting_measurement_value_upper_bound, k)
+        if v is None or fresh_l[str(k)] is None:
+            continue
+        ctx.check("O5:order-independent", abs(v - fresh_l[str(k)]) <= TOL, dev=abs(v - fresh_l[str(k)]), tol=TOL, sig=("npa-levels", str(k), pos), nt=pos > 0,
+                  mech=f"value-depends-on-history[npa-level-{k}]", detail={"shape": [a2, b2, x2, y2], "order": [str(t_) for t_ in order_l], "value": v, "fresh": fresh_l[str(k)],
+                                                                          "fresh_values_of_all_levels": fresh_l})
 
 
 def _run_odometer(ctx, spec, rng):
